@@ -45,8 +45,9 @@ def run(chk, ctx) -> None:
     chk.floor('C02.amounts', 18)
     # "the strongest hand": the hand a player takes to the showdown is the one Hand.from_game forms (C05's search clauses)
     from . import c05
-    c05.run(Refile(chk, {r: 'C02.strongest' for r in ('C05.exhaustive', 'C05.polarity', 'C05.source', 'C05.badugi', 'C05.errors',
-                                                      'C05.counts', 'C05.helpers', 'C05.none')}), ctx)
+    from .helpers import foreign
+    foreign(chk, c05.run, Refile(chk, {r: 'C02.strongest' for r in ('C05.exhaustive', 'C05.polarity', 'C05.source', 'C05.badugi', 'C05.errors',
+                                                                    'C05.counts', 'C05.helpers', 'C05.none')}), ctx)
     from .c04 import _operators
     _operators(Refile(chk, {'C04.operators': 'C02.strongest'}, only=lambda r, c: c.startswith('Hand')), ctx)
     chk.floor('C02.strongest', 40)
